@@ -150,7 +150,7 @@ def sub_event(inp):
     """inp: {'ev': event model}: the event is built through the API (no property-level sanity check in the way)."""
     from hplverif.checks import c02
 
-    st, ev = core.guarded(c02.build_event_api, inp['ev'])
+    st, ev = core.guarded(c02.build_event_api, inp['ev'], inp.get('nest', 0))
     if st == 'exc':
         return None
     check_event(ev, inp, sub='event')
@@ -422,10 +422,10 @@ def shard(ctx, shard_no, nshards, n):
         if ev is None:
             ctx.count('random:event-rejected')
             return
-        ctx.case(('event', text), any(n[0] == 'var' for n in mast.walk(inp['ev'])), 'random:event:' + inp['ev'][0], sample=text)
+        ctx.case(('event', text, inp.get('nest', 0)), any(n[0] == 'var' for n in mast.walk(inp['ev'])), 'random:event:' + inp['ev'][0] + (':renested' if inp.get('nest') and inp['ev'][0] == 'disj' else ''), sample=text)
 
     with ctx.timed('random-event'):
-        core.run_hypothesis(ctx, 'event', from_tape(lambda ch: {'ev': c02.gen_event(ch, c02.TOPICS)}, 128), body_e, n // 2)
+        core.run_hypothesis(ctx, 'event', from_tape(lambda ch: {'ev': c02.gen_event(ch, c02.TOPICS), 'nest': ch.pick([0, 1, 2, 3, 5, 11])}, 128), body_e, n // 2)
 
 
 def run(ctx):
